@@ -656,12 +656,12 @@ def run(ck: Check):
                     "layout (code items with or without tries); the theorem's domain is files whose sections are stored "
                     "back to back at the offsets their map entries give — everything else (truncated, overlapping item "
                     "types, duplicate map types) is covered by the correspondence and the oracle only")
-    ck.notes.append("extension: parse_encode_static_values is proved for files that EncodesX extended tables (base tables + "
-                    "encoded_array_item section) without annotation sections; annotation items / sets / directories are modelled "
-                    "(stream dexx, 0 mismatches required) but their file-level theorem is not proved yet")
-    ck.partial.append("file-level theorem for the annotation sections (annotation_item, annotation_set_item, annotation_set_ref_list, "
-                      "annotations_directory_item): modelled and tied by the correspondence dexx, not yet proved; debug_info_item is "
-                      "outside the model")
+    ck.notes.append("extension: parse_encode_static_values / parse_encode_annotations are proved for files that EncodesX extended "
+                    "tables (base tables + encoded_array_item, annotation_item, annotation_set_item, annotation_set_ref_list and "
+                    "annotations_directory_item sections) in any layout; field / method / parameter annotation offsets inside a "
+                    "directory are only stored by the loader (never dereferenced at load time) and are reported as stored")
+    ck.partial.append("debug_info_item, call sites / method handles and hidden-api data are outside the model (the loader parses "
+                      "debug info lazily, per method); the lazy getters of field / method / parameter annotations are not modelled")
     ck.assumptions += [
         "mutf8.decode is an injective renaming of MUTF-8 byte strings that commutes with concatenation (C06); the model keeps raw bytes",
         "header validation (C09), debug info, call sites / method handles, hidden-api data are not in the model; static values and "
